@@ -629,6 +629,71 @@ cbn [readPacketHeader]. cbv zeta.
   all: sim; auto.
 Qed.
 
+(* the packet block header followed by ANY bytes x: what the block loop does with it *)
+Lemma hdr_epb_x ro F g s ifid ts caplen len data o :
+  r_big s = false -> wf_packet (r_ifaces s) ifid ts caplen len data o ->
+  let L := zlen (opts_enc (popts_to_options o)) + 32 + zlen data + pad4 (zlen data) in
+  let b20 := le_bytes 4 ifid ++ (le_bytes 4 (u32 (ts / 4294967296)) ++ le_bytes 4 (u32 ts)) ++ le_bytes 4 caplen ++ le_bytes 4 len in
+  exists i s2, nth_error (r_ifaces s) (Z.to_nat ifid) = Some i
+    /\ r_big s2 = false /\ r_btyp s2 = 6 /\ r_blen s2 = L - 28 /\ r_ci s2 = mkCi ifid (ts / E9, ts mod E9) caplen len
+    /\ r_ifaces s2 = r_ifaces s /\ r_link s2 = r_link s /\ r_first s2 = r_first s /\ r_pcap s2 = r_pcap s
+    /\ (forall y, zlen y < 20 -> exists s', exec (readPacketHeader ro F (S g)) s (le_bytes 4 6 ++ le_bytes 4 L ++ y) = ((s', Err 2), []))
+    /\ forall x, exec (readPacketHeader ro F (S g)) s (le_bytes 4 6 ++ le_bytes 4 L ++ b20 ++ x) =
+        if ro_mixed ro then ((set_ancil s2 (if_link i), Ok tt), x)
+        else if negb (if_link i =? r_link s)
+             then match exec (s_disc (L - 28)) s2 x with
+                  | ((s3, Ok _), l1) => if ro_errmis ro then ((s3, Err 3), l1) else exec (readPacketHeader ro F g) s3 l1
+                  | ((s3, Err c), l1) => ((s3, Err c), l1)
+                  | ((s3, Panic q), l1) => ((s3, Panic q), l1)
+                  end
+             else ((s2, Ok tt), x).
+Proof.
+  intros Hbig Hwf. pose proof (enc_epb_shape _ _ _ _ _ _ _ Hwf) as (Hshape & HL & Hid). cbv zeta in *.
+  destruct Hwf as (Hts & Hcap & Hcl & Hlen & Hwo & Hsz & _ & i & Ei & Hns & Hsnap & Hidlt).
+  set (options := popts_to_options o) in *.
+  set (L := zlen (opts_enc options) + 32 + zlen data + pad4 (zlen data)) in *.
+  pose proof (zlen_nonneg data) as Hd0. pose proof (pad4_range (zlen data)) as Hpd.
+  assert (0 <= zlen (opts_enc options)) as Hoe by apply zlen_nonneg.
+  destruct (hdr20_fields ifid (u32 (ts / 4294967296)) (u32 ts) caplen len ltac:(lia)
+              ltac:(unfold u32; apply Z.mod_pos_bound; lia) ltac:(unfold u32; apply Z.mod_pos_bound; lia) ltac:(lia) ltac:(lia))
+    as (Hb20 & Hf1 & Hf2 & Hf3 & Hf4).
+  set (b20 := le_bytes 4 ifid ++ (le_bytes 4 (u32 (ts / 4294967296)) ++ le_bytes 4 (u32 ts)) ++ le_bytes 4 caplen ++ le_bytes 4 len) in *.
+  rewrite ts_split in Hf2 by lia.
+  exists i. eexists. split; [exact Ei|].
+  split; [|split; [|split; [|split; [|split; [|split; [|split; [|split; [|split]]]]]]]]; cycle 9.
+  { intros x. set (tail := x).
+    cbn [readPacketHeader]. cbv zeta.
+cbn [readPacketHeader]. cbv zeta.
+    rewrite exec_bind, exec_readBlock_plain by (try assumption; try lia; unfold BT_SHB; lia). cbv iota beta.
+    rewrite exec_bind, exec_sget. cbv iota beta. sim. cbn [Z.eqb Pos.eqb orb].
+    rewrite exec_bind, exec_rd_app by exact Hb20. cbv iota beta.
+    rewrite exec_bind, exec_sub_blen. cbv iota beta.
+    rewrite exec_bind, exec_sget. cbv iota beta. sim. rewrite Hf1, Hf2.
+    rewrite exec_bind, exec_smod. cbv iota beta. sim.
+    assert (zlen (r_ifaces s) <=? ifid = false) as -> by lia. rewrite Ei.
+    rewrite exec_bind. rewrite (convert_time_ns i ts Hns Hts). cbn [slift]. rewrite exec_sret. cbv iota beta.
+    rewrite exec_bind, exec_smod. cbv iota beta. sim. rewrite Hf3, Hf4.
+    rewrite exec_bind. unfold check_caplen. rewrite exec_bind, exec_sget. cbv iota beta. sim.
+    rewrite u32_small by lia.
+    assert (L - 8 - 20 <? caplen = false) as -> by (subst L; lia).
+    assert (len <? caplen = false) as -> by lia.
+    assert (negb (if_snap i =? 0) && (if_snap i <? caplen) = false) as -> by (destruct Hsnap; lia).
+    rewrite exec_sret. cbv iota beta.
+    rewrite exec_bind, exec_sget. cbv iota beta. sim. rewrite Ei.
+    destruct (ro_mixed ro); cbn [negb].
+    - rewrite exec_smod. reflexivity.
+    - destruct (negb (if_link i =? r_link s)).
+      + rewrite exec_bind. sim. replace (L - 8 - 20) with (L - 28) by lia.
+        match goal with |- context [exec (s_disc (L - 28)) ?st tail] => destruct (exec (s_disc (L - 28)) st tail) as [[s3 o3] l3] end.
+        destruct o3; [destruct (ro_errmis ro); [rewrite exec_sfail|]; reflexivity|reflexivity|reflexivity].
+      + rewrite exec_sret. reflexivity. }
+  all: sim; auto; try lia.
+  intros y Hy. cbn [readPacketHeader]. cbv zeta.
+  rewrite exec_bind, exec_readBlock_plain by (try assumption; try lia; unfold BT_SHB; lia). cbv iota beta.
+  rewrite exec_bind, exec_sget. cbv iota beta. sim. cbn [Z.eqb Pos.eqb orb].
+  rewrite exec_bind, exec_rd_short by lia. eauto.
+Qed.
+
 Lemma exec_epb_g ro F g s ifid ts caplen len data o rest :
   ro_mixed ro = true -> r_big s = false -> (length (popts_to_options o) + 2 < F)%nat ->
   wf_packet (r_ifaces s) ifid ts caplen len data o ->
